@@ -60,6 +60,40 @@ package mqtt
 //@ func itIsPubRel() bool {
 //@ 	return itRead() && itType() == packetPubRel && evCount("(*pktPubRel).Parse") == 1 && evRet[error]("(*pktPubRel).Parse", 0, 1) == nil
 //@ }
+//@ // every parser is given exactly the flags and the body of the packet that was read in this iteration
+//@ func itParsedWhatWasRead() bool {
+//@ 	t := itType()
+//@ 	f := evRet[byte]("readPacket", 0, 1)
+//@ 	b := evRet[[]byte]("readPacket", 0, 2)
+//@ 	if t == packetConnAck {
+//@ 		return evArg[byte]("(*pktConnAck).Parse", 0, 1) == f && sameSlice(evArg[[]byte]("(*pktConnAck).Parse", 0, 2), b)
+//@ 	}
+//@ 	if t == packetPublish {
+//@ 		return evArg[byte]("(*pktPublish).Parse", 0, 1) == f && sameSlice(evArg[[]byte]("(*pktPublish).Parse", 0, 2), b)
+//@ 	}
+//@ 	if t == packetPubAck {
+//@ 		return evArg[byte]("(*pktPubAck).Parse", 0, 1) == f && sameSlice(evArg[[]byte]("(*pktPubAck).Parse", 0, 2), b)
+//@ 	}
+//@ 	if t == packetPubRec {
+//@ 		return evArg[byte]("(*pktPubRec).Parse", 0, 1) == f && sameSlice(evArg[[]byte]("(*pktPubRec).Parse", 0, 2), b)
+//@ 	}
+//@ 	if t == packetPubRel {
+//@ 		return evArg[byte]("(*pktPubRel).Parse", 0, 1) == f && sameSlice(evArg[[]byte]("(*pktPubRel).Parse", 0, 2), b)
+//@ 	}
+//@ 	if t == packetPubComp {
+//@ 		return evArg[byte]("(*pktPubComp).Parse", 0, 1) == f && sameSlice(evArg[[]byte]("(*pktPubComp).Parse", 0, 2), b)
+//@ 	}
+//@ 	if t == packetSubAck {
+//@ 		return evArg[byte]("(*pktSubAck).Parse", 0, 1) == f && sameSlice(evArg[[]byte]("(*pktSubAck).Parse", 0, 2), b)
+//@ 	}
+//@ 	if t == packetUnsubAck {
+//@ 		return evArg[byte]("(*pktUnsubAck).Parse", 0, 1) == f && sameSlice(evArg[[]byte]("(*pktUnsubAck).Parse", 0, 2), b)
+//@ 	}
+//@ 	if t == packetPingResp {
+//@ 		return evArg[byte]("(*pktPingResp).Parse", 0, 1) == f && sameSlice(evArg[[]byte]("(*pktPingResp).Parse", 0, 2), b)
+//@ 	}
+//@ 	return true
+//@ }
 //@ // malformed input ends the loop: an iteration continues only for a known packet type whose
 //@ // parser accepted the packet
 //@ func itParsedOK() bool {
@@ -204,9 +238,12 @@ package mqtt
 //@   ensures[C04] exit_qos2: itIsPublish() && itPublish().Message.QoS == QoS2 ==> served() == 0
 //@   loop 1 iter[C04,C06] read: itRead()
 //@   loop 1 iter[C06] parsed: itParsedOK()
+//@   loop 1 iter[C04,C06,C07] parsed_what_was_read: itParsedWhatWasRead()
 //@   loop 1 iter[C06] writes_ok: written() == 1 ==> evRet[error]("(*BaseClient).write", 0, 0) == nil
 //@   loop 1 iter[C04] pub_serve: itIsPublish() && itPublish().Message.QoS <= QoS1 ==>
 //@        served() == ite(c.handler != nil, 1, 0) && (served() == 1 ==> evArg[*Message]("Handler.Serve", 0, 1) == itPublish().Message) && sbSame(subBuffer, sb0)
+//@   note each packet body is storage of its own iteration; with payload_storage of (*pktPublish).Parse: a message (a QoS 2 one waits in subBuffer over later iterations; a handler may keep any) never shares storage with packets read later
+//@   loop 1 iter[C04,C20] own_buffer: itRead() ==> len(evRet[[]byte]("readPacket", 0, 2)) == 0 || iterFreshArr(evRet[[]byte]("readPacket", 0, 2))
 //@   loop 1 iter[C17] current_handler: served() == 1 ==> evArg[Handler]("Handler.Serve", 0, 0) == guardVal(&c.handler)
 //@   loop 1 iter[C04] qos0: itIsPublish() && itPublish().Message.QoS == QoS0 ==> written() == 0
 //@   loop 1 iter[C04] qos1: itIsPublish() && itPublish().Message.QoS == QoS1 ==>
